@@ -986,7 +986,7 @@ func run(c *vf.Ctx) {
 
 	defer snapgen.UseFastTmp("c09")()
 
-	nSeq := c.N(48, 1000)
+	nSeq := c.N(48, 700)
 	if v := os.Getenv("VERIF_NSEQ"); v != "" {
 		fmt.Sscan(v, &nSeq)
 	}
@@ -1004,7 +1004,7 @@ func run(c *vf.Ctx) {
 	}
 	// Enumerated part: every exit point of Close, for both sink kinds, on a
 	// set of store shapes, with and without FULL_NEEDED.
-	nShapes := c.N(1, 12)
+	nShapes := c.N(1, 8)
 	no := 0
 	for sh := 0; sh < nShapes; sh++ {
 		for _, kind := range []string{"localfull", "install", "localinc"} {
@@ -1120,5 +1120,5 @@ func run(c *vf.Ctx) {
 	close(ch)
 	wg.Wait()
 	c.Extra("sequences_planned", len(jobs))
-	c.Require(int64(c.N(250, 5000)), c.N(100, 2000))
+	c.Require(int64(c.N(250, 4000)), c.N(100, 1500))
 }
